@@ -331,6 +331,16 @@ class Interp:
             if rng is None:
                 raise OutOfFragment('numeric_limits of %s at %s' % (T, fn.loc(n)))
             return rng[1] if callee.endswith('::max') else rng[0]
+        if callee in ('isdigit', 'std::isdigit', 'isalpha', 'std::isalpha', 'isspace', 'std::isspace', 'isupper', 'std::isupper', 'islower', 'std::islower', 'isalnum', 'std::isalnum') and len(n.get('args', [])) == 1:
+            c_ = self.eval(fn, S[n['args'][0]], env)
+            if isinstance(c_, int):
+                if not (-1 <= c_ <= 255):
+                    raise OutOfFragment('%s(%d): argument not representable as unsigned char (undefined behaviour) at %s' % (callee, c_, fn.loc(n)))
+                nm = callee.split('::')[-1]
+                ch = c_
+                r_ = {'isdigit': 48 <= ch <= 57, 'isalpha': 65 <= ch <= 90 or 97 <= ch <= 122, 'isspace': ch in (32, 9, 10, 11, 12, 13), 'isupper': 65 <= ch <= 90,
+                      'islower': 97 <= ch <= 122, 'isalnum': 48 <= ch <= 57 or 65 <= ch <= 90 or 97 <= ch <= 122}[nm]
+                return int(r_)
         if callee in ('std::max', 'std::min') and len(n['args']) == 2:
             a, b = (self.eval(fn, S[x], env) for x in n['args'])
             return max(a, b) if callee == 'std::max' else min(a, b)
@@ -447,6 +457,15 @@ class Interp:
                     if not (0 <= pos <= len(o)):
                         raise OutOfFragment('substr position %r beyond the length %d (std::out_of_range) at %s' % (pos, len(o), fn.loc(n)))
                     return bytes(o[pos:pos + max(cnt, 0)]) if cnt >= 0 else bytes(o[pos:])
+                if last == 'compare' and len(args) in (1, 3):
+                    a_ = [self.eval(fn, S[x], env) for x in args]
+                    lhs = bytes(o) if len(a_) == 1 else bytes(o[a_[0]:a_[0] + a_[1]])
+                    rhs = bytes(a_[-1])
+                    return (lhs > rhs) - (lhs < rhs)
+                if last in ('starts_with', 'ends_with') and len(args) == 1:
+                    a0 = self.eval(fn, S[args[0]], env)
+                    a0 = bytes([a0]) if isinstance(a0, int) else bytes(a0)
+                    return bytes(o).startswith(a0) if last == 'starts_with' else bytes(o).endswith(a0)
                 if last == 'data' and not args:
                     return ('sptr', bytes(o), 0)
                 if last in ('find_first_not_of', 'find_last_not_of', 'find_first_of', 'find_last_of', 'find', 'rfind') and args:
@@ -560,6 +579,13 @@ class Interp:
             return NOT_HANDLED
         if k == 'CallExpr' and cs in ('std::begin', 'std::end', 'std::cbegin', 'std::cend', 'std::size', 'std::ssize', 'std::empty', 'std::next') and n.get('args'):
             o = self.eval(fn, S[n['args'][0]], env)
+            if isinstance(o, (bytes, bytearray)) and cs in ('std::begin', 'std::end', 'std::cbegin', 'std::cend'):
+                snaps = self.__dict__.setdefault('_strsnaps', {})
+                snap = snaps.get(id(o))
+                if snap is None or bytes(snap[0]) != bytes(o):
+                    snap = (bytes(o), list(o))
+                    snaps[id(o)] = snap
+                return ('it', snap[1], 0 if 'begin' in cs else len(snap[1]))
             if isinstance(o, (set, frozenset)) and cs in ('std::begin', 'std::end', 'std::cbegin', 'std::cend'):
                 snaps = self.__dict__.setdefault('_setsnaps', {})
                 snap = snaps.get(id(o))
